@@ -170,6 +170,36 @@ func (c *Ctl) Step(g *G, timeout time.Duration) bool {
 	}
 }
 
+// Resume lets g run for its next atomic section without waiting for it; the caller watches State.
+func (c *Ctl) Resume(g *G) {
+	c.mu.Lock()
+	g.Parked = false
+	c.mu.Unlock()
+	g.resume <- struct{}{}
+}
+
+// State reports whether g is parked at a hook point / has finished.
+func (c *Ctl) State(g *G) (parked bool, done bool, point string) {
+	c.mu.Lock()
+	defer c.mu.Unlock()
+	return g.Parked && !g.Done, g.Done, g.Point
+}
+
+// All lists every managed goroutine.
+func (c *Ctl) All() []*G {
+	c.mu.Lock()
+	defer c.mu.Unlock()
+	return append([]*G{}, c.Gs...)
+}
+
+// WaitSig waits for the next park / finish signal, at most d.
+func (c *Ctl) WaitSig(d time.Duration) {
+	select {
+	case <-c.sig:
+	case <-time.After(d):
+	}
+}
+
 // Abort releases every parked goroutine; they unwind (Park panics with a private value that Go recovers).
 func (c *Ctl) Abort() {
 	c.mu.Lock()
